@@ -22,7 +22,9 @@ documented "needle must be the one given to the constructor" relation -- mcai/mm
 
 Not decided here (stated, not claimed): termination (an endless loop also "does not return
 normally"); allocation failure; panics inside user-supplied `HeuristicFrequencyRank` impls;
-and the sites of LEMMAS below, whose safety needs reasoning outside the linear domain."""
+and the site of LEMMAS below, whose safety needs reasoning outside the linear domain.  (The two-way
+reverse searchers' `pos -= critical_pos - i + 1` at i == 0 is decided through the EQ ghost: i reaches 0 only
+via `needle[0] == haystack[pos - nlen]`, which refutes the other disjunct of the branch.)"""
 import re
 from ..report import Report
 from . import e2common
@@ -41,12 +43,6 @@ LEMMAS = {
         1, "`i + 1 - self.needle_len` runs only when bit `needle_len` of `result` is clear; bit k of `result` can only be "
            "cleared after k shifts (bit 0 is the only bit cleared by `!1`, each step moves it up by one), so i + 1 >= needle_len: "
            "a bit-vector invariant, outside the linear domain"),
-    ('arch::all::twoway::FinderRev::rfind_small_imp', 'overflow:Sub'): (
-        1, "`pos -= critical_pos - i + 1` with i == 0 would need critical_pos + 1 <= pos; i reaches 0 only through "
-           "`needle[0] == haystack[pos - nlen]`, which makes the other disjunct `first_byte != haystack[pos - nlen]` false, "
-           "so with i == 0 the branch is not taken: needs the contents of the two slices"),
-    ('arch::all::twoway::FinderRev::rfind_large_imp', 'overflow:Sub'): (
-        1, "same argument as rfind_small_imp"),
 }
 
 FLOORS = {'PANIC': 120, 'REL-PRE': 80, 'REL-POST': 400, 'DOC-PANIC': 4}   # counted on the pinned tree (quick tier): 132 / 108 / 538 / 6
